@@ -32,7 +32,8 @@ claim('C17',
 claim('C01',
       'TLA+ spec XlSyntax (Climb grammar, shunting-yard design, Render) + XlEval; TLC enumerates every ordered operator pair/triple, '
       'tree shapes with minimal/redundant parentheses, literal spellings and gaps, checks ShuntingYard = Climb and that wrong '
-      'precedence tables are rejected; dump replayed through compiled models; seeded deep formulas validated by TLC (Trace_Formula)',
+      'precedence tables are rejected; dump replayed through compiled models; the tree the specification assigns also evaluated in IEEE '
+      'doubles on operands that separate every grouping (compared exactly); seeded deep formulas validated by TLC (Trace_Formula)',
       'Exhaustive over all 12x12 ordered operator pairs (x 8 unary-minus placements x 8 assignments incl. booleans so that every '
       'non-associative pair is discriminated - an ASSUME checked by TLC), all 12^3 triples, the 5 tree shapes of each triple with '
       'minimal and redundant parentheses, literal spellings (plain, decimal, percent, scientific) and blank/newline gaps; expected '
@@ -49,7 +50,8 @@ claim('C02',
       'shunting yard with were_values / arg_count and the tree construction): TLC proves on the well-formed families that the '
       'machines refine the syntax spec (RefinesSyntax, RefinesTree, RpnIsPostOrder) and runs them on every short string over 6 '
       'alphabets; finished and failed states replayed into ExcelParser.getTokens / shunting_yard / build_ast (token list, reverse '
-      'polish list with argument counts, tree); recorded parses validated by Trace_Parser, which reuses the actions of both machines',
+      'polish list with argument counts, tree); recorded parses validated by Trace_Parser, which reuses the actions of both machines; every '
+      'text with string literals parsed again with a defined-name table made of the literal contents (the tree must not change)',
       'Exhaustive over: every atom kind (numbers in 5 spellings, strings, booleans, all 7 error literals, references in every $ / '
       'sheet-qualification spelling incl. quoted names, ranges, calls) in every one of 15 contexts nested two levels deep, every '
       'string of length <= 2 (thorough 3) over the tokenizer delimiter alphabet in 6 contexts, call arities 0..4 with nested calls '
